@@ -292,6 +292,32 @@ impl KeyValueStore {
         drop(self.rollover_memtable(state));
     }
 
+    /// Verification hook: every entry of the memtable and of the immutable memtable, in cursor
+    /// order, read through the same `MemTable::cursor` the flush uses.
+    #[cfg(rescrv_blue_verif)]
+    #[allow(clippy::type_complexity)]
+    pub fn verif_dump_mem(&self) -> Result<(Vec<KeyValuePair>, Option<Vec<KeyValuePair>>), SError> {
+        fn drain(mt: &MemTable) -> Result<Vec<KeyValuePair>, SError> {
+            let mut out = vec![];
+            let mut cursor = mt.cursor();
+            cursor.seek_to_first()?;
+            while let Some(kvr) = cursor.key_value() {
+                out.push(KeyValuePair::from(kvr));
+                cursor.next()?;
+            }
+            Ok(out)
+        }
+        let (mem, imm) = {
+            let state = self.state.lock().unwrap();
+            (Arc::clone(&state.mem), state.imm.clone())
+        };
+        let imm = match imm {
+            Some(imm) => Some(drain(&imm)?),
+            None => None,
+        };
+        Ok((drain(&mem)?, imm))
+    }
+
     /// Verification hook: the tree under this store.
     #[cfg(rescrv_blue_verif)]
     pub fn verif_tree(&self) -> &LsmTree {
